@@ -71,6 +71,14 @@ CHECKS['C03'] = dict(text="Theorems (Core, every configuration: n_jobs>=1, non-e
   "expires twice, with all thread stacks in the replay). Partial: failure paths, apply, progress-bar hand-shake, pipe capacity "
   "and fork are outside Core; they are exercised by the runs only.", ref="5/C03",
   technique="Coq proof (protocol invariant + progress + strictly decreasing measure, all schedules) + trace conformance + watchdog")
+CHECKS['C13'] = dict(text="Theorems: the extras list worker._set_additional_args builds is worker id, shared objects, worker state in "
+  "that order for all 8 subsets (kernel translated from the source); call-site facts read off the source (extras before task "
+  "arguments; same list for init/task/exit; worker_state created empty with the instance); the unpacking convention kernel; "
+  "(Core, all schedules) worker ids below n_jobs, and in the log of any worker id instance numbers never decrease -- an id is "
+  "never held by two instances at once; successors start fresh. Tie: kernels, plus an end-to-end oracle on the user functions' own "
+  "logs over all 8 subsets x setter/constructor x lifespans x map/apply x 4 start methods (ids, shared values, state privacy "
+  "and persistence, non-overlap in time). Partial: Python object identity of worker_state is observed, not modelled.",
+  ref="5/C13", technique="Coq proof (instance-order invariant over all schedules; kernel equalities) + argument-log oracle")
 PENDING = {}
 props = [json.loads(l) for l in open(os.path.join(V, 'properties.jsonl'))]
 m = dict(version=1,
